@@ -9,7 +9,7 @@ from scommon import Search, seed
 import pl_common as pc
 from pl_common import pg, PipeObj, close
 
-S = Search('C14', 'random pipelines as in C09 that start with the zero-length entrance, positive flows and the non-positive-flow convention '
+S = Search('C14', 'random pipelines as in C09 that start with the zero-length entrance, half of the pumps away from their design state (speed 70-100 %, impeller 85-100 %), positive flows and the non-positive-flow convention '
                   '(qimin from the real minimiser); deep snapshot of sections / slurries / slurry parameters before and after; '
                   'distinct = distinct pipeline+flow')
 rng = random.Random(seed())
@@ -28,7 +28,7 @@ for i in range(S.budget):
     sp = pc.random_slurry_params(rng)
     try:
         rec = {}
-        pl = pc.make_pipeline(rng, secs, sp, record=rec)
+        pl = pc.make_pipeline(rng, secs, sp, record=rec, offdesign=True)
         Q = PipeObj.Pipe(diameter=secs[-1][1]).flow(rng.uniform(0.5, 8.0))
         mode = 'positive'
         if rng.random() < 0.12:
